@@ -171,7 +171,7 @@ Proof.
   intros st t c st' ev done H.
   destruct c; cbn [begin_cmd] in H;
     try (destr_all H; inversion H; subst; clear H; split; reflexivity).
-  - destruct (negb (is_main t) || wused st w); [inversion H; subst; auto|].
+  - destruct (negb (is_main t) || wused st w || (1000000 <=? w) || (w <? 0)); [inversion H; subst; auto|].
     destruct (wh_add st (HPlain w)) as [[st1 wi]|] eqn:E; inversion H; subst; auto. apply wh_add_ghost in E. exact E.
   - destruct (negb (is_main t)); [inversion H; subst; auto|].
     destruct (fill_loop (Z.to_nat n) st []) as [st1 ev1] eqn:E. inversion H; subst. eapply fill_loop_ghost; eauto.
